@@ -66,7 +66,10 @@ def share_encoder_parameters(
     # memory overhead and speeds up training
     param_vals: TensorDict = from_module(policy.encoder).detach()
     for other in others:
-        target_params: TensorDict = param_vals.clone().lock_()
+        # NOTE: We pin the detached tensors themselves (they share storage with the policy's
+        # encoder parameters) rather than a copy of them, otherwise the other encoders are
+        # frozen at the values of the last mutation hook and never see the policy's updates
+        target_params: TensorDict = param_vals.clone(False).lock_()
         target_params.to_module(other.encoder)
 
         # Disable architecture mutations since we will be
